@@ -2446,3 +2446,89 @@ Proof.
 Qed.
 
 End Concentration.
+
+(* ------------------------------------------------------------------------------------------ *)
+(** * C14_exec_concentration *)
+
+(** every column of the plan exists on the plate: its dilution transfer was accepted *)
+Lemma plan_cols_on_plate a p gs gd wms lws P :
+  length wms = length (dp_instr p) -> (1 <= tw_R a)%nat ->
+  Forall (op_args_ok lws) (plan_ops a p gs gd (dp_instr p) wms) ->
+  nth_error lws (tw_plate a) = Some P ->
+  forall x, In x (dp_instr p) -> (i_col x < g_cols (lw_geom P))%nat.
+Proof.
+  intros Lw HR1 Hoks HP x Hx. destruct (zip_In_l (dp_instr p) wms x Lw Hx) as (wm & Hin).
+  assert (Hop : In (dilute_op a p gd x) (plan_ops a p gs gd (dp_instr p) wms)).
+  { unfold plan_ops. apply in_flat_map. exists (x, wm). split; [exact Hin|].
+    cbn [fst snd]. rewrite c14_exec_structure. apply in_or_app. right. left. reflexivity. }
+  rewrite Forall_forall in Hoks. specialize (Hoks _ Hop).
+  unfold dilute_op in Hoks. cbn [op_args_ok] in Hoks.
+  destruct Hoks as (_ & _ & _ & Ls & Ld & _ & HLd & _ & Hres). rewrite HP in HLd. injection HLd as <-.
+  apply (lw_index_col_bound P 0); [lia|]. apply Hres.
+  unfold t_dst, col_wells. cbn [flattenF]. apply In_broadcast_ge.
+  - unfold column_wells. apply in_map_iff. exists 0%nat. split; [reflexivity|]. apply in_seq. lia.
+  - rewrite column_wells_length. unfold t_n. cbn [flattenF]. rewrite column_wells_length. lia.
+Qed.
+
+Theorem c14_exec_concentration ideal stock vmax mt p R a C s s' P St D k :
+  plan_core ideal stock vmax mt = Ok p -> Forall (fun col => length col = R) ideal ->
+  length vmax = length ideal -> tw_R a = R -> Forall (fun v => 0 < v) vmax ->
+  to_worklist s a p C = (s', None) -> wf_state s -> st_inv s -> 0 < w_max (st_wl s) ->
+  tw_plate a <> tw_stock a -> tw_plate a <> tw_diluent a -> tw_stock a <> tw_diluent a ->
+  (forall d, tw_dest a = Some d -> d <> tw_plate a /\ d <> tw_stock a /\ d <> tw_diluent a) ->
+  nth_error (st_lw s) (tw_plate a) = Some P -> nth_error (st_lw s) (tw_stock a) = Some St ->
+  nth_error (st_lw s) (tw_diluent a) = Some D ->
+  is_trough (lw_geom P) = false ->
+  (forall r c, (r < R)%nat -> (c < length ideal)%nat -> vol_at P (r * g_cols (lw_geom P) + c) == 0) ->
+  frac St k (tw_stock_column a) == 1 -> frac D k (tw_diluent_column a) == 0 ->
+  exists P', nth_error (st_lw s') (tw_plate a) = Some P' /\
+    forall r c, (r < R)%nat -> (c < length ideal)%nat ->
+      frac P' k (r * g_cols (lw_geom P) + c) * stock == pconc p c r.
+Proof.
+  intros Hplan Hrect Lv HR Hpos Hrun Hwf HI Hm Hps Hpd Hsd Hdest HP HSt HD HPt Hempty HfS HfD.
+  subst R.
+  unfold to_worklist in Hrun. rewrite HP, HSt, HD in Hrun.
+  destruct ((n_row_ids (lw_geom P) <? tw_R a)%nat || (g_cols (lw_geom P) <? C)%nat) eqn:E1; [discriminate|].
+  match type of Hrun with (if ?b then _ else _) = _ => destruct b; [discriminate|] end.
+  destruct (negb (is_trough (lw_geom St)) || negb (is_trough (lw_geom D))) eqn:E3; [discriminate|].
+  apply orb_false_iff in E1. destruct E1 as [E1 _]. apply Nat.ltb_ge in E1.
+  apply orb_false_iff in E3. destruct E3 as [E3a E3b].
+  apply negb_false_iff in E3a. apply negb_false_iff in E3b.
+  unfold is_trough in E3a, E3b, HPt.
+  destruct (g_vrows (lw_geom St)) as [vs|] eqn:EvS; [|discriminate].
+  destruct (g_vrows (lw_geom D)) as [vd|] eqn:EvD; [|discriminate].
+  destruct (g_vrows (lw_geom P)) as [vp|] eqn:EvP; [discriminate|].
+  clear E3a E3b HPt.
+  destruct (run_instrs_ops _ _ _ _ _ _ _ Hrun) as (wms & Lw & Hops).
+  destruct (run_ops_ledger _ _ _ (plan_ops_tc _ _ _ _ _ _) Hops Hwf Hm) as (_ & _ & Hoks & _ & Hled).
+  destruct (Hled _ _ HP) as (P' & HP' & _ & _).
+  exists P'. split; [exact HP'|]. intros r c Hr Hc.
+  assert (HR1 : (1 <= tw_R a)%nat) by lia.
+  pose proof (plan_cols_on_plate a p _ _ wms _ P Lw HR1 Hoks HP) as Hcolx.
+  destruct (proj1 (c14_complete ideal stock vmax mt) p Hplan) as (_ & L1 & _ & _ & Hcol).
+  assert (HC : (length ideal <= g_cols (lw_geom P))%nat).
+  { destruct (Nat.eq_dec (length ideal) 0) as [E0|N0]; [lia|].
+    assert (Hm' : (length ideal - 1 < length ideal)%nat) by lia.
+    pose proof (Hcolx (nth (length ideal - 1) (dp_instr p) dinstr) ltac:(apply nth_In; rewrite L1; exact Hm')) as Hlt.
+    rewrite (Hcol _ Hm') in Hlt. lia. }
+  assert (HG : Good a P St D s).
+  { split; [exact Hwf|]. split; [exact HI|]. split; [exact Hm|].
+    split; [exists P; split; [exact HP|reflexivity]|].
+    split; [exists St; split; [exact HSt|reflexivity]|exists D; split; [exact HD|reflexivity]]. }
+  assert (HInv0 : Inv k a p ideal stock P s 0).
+  { split; [unfold SF, lwf; rewrite HSt; exact HfS|]. split; [unfold DF, lwf; rewrite HD; exact HfD|].
+    split; [intros c0 Hc0; lia|].
+    intros c0 _ Hc0.
+    assert (HE : Empty a P s c0).
+    { intros r0 Hr0. unfold PV, lwv. rewrite HP. exact (Hempty r0 c0 Hr0 Hc0). }
+    destruct (psrc p c0) as [k0|]; [|exact HE]. cbn [Nat.ltb Nat.leb]. exact HE. }
+  destruct (plan_effect k a p ideal stock vmax mt P St D vs vd Hplan Hrect Lv Hps Hpd Hsd Hdest EvP E1 HC EvS EvD
+              (wf_geom_nth _ _ _ Hwf HSt) (wf_geom_nth _ _ _ Hwf HD)
+              (length ideal) 0%nat wms s s' ltac:(lia) ltac:(rewrite Lw; exact L1))
+    as (_ & _ & _ & HDone & _).
+  - intros c0 Hc0. pose proof (vmax_pos_nth vmax c0 Hpos ltac:(lia)). lra.
+  - cbn [skipn]. exact Hops.
+  - exact HG.
+  - exact HInv0.
+  - pose proof (HDone c Hc Hc r Hr) as Hd. unfold PF, lwf in Hd. rewrite HP' in Hd. exact Hd.
+Qed.
